@@ -165,6 +165,12 @@ def staleness(ctx, op, cls, pre):
         again = []
         for r in reads:
             again.append(_eq_all(ctx, getattr(sig, r), first[r]))
+        # ... and once more in the opposite order, on the operated object and on a second fresh one that has never
+        # been read in the forward order (a read must not depend on which other reads came before it)
+        fresh2 = _make(lib, cls, sig.values.copy(), smooth=sig.smooth_fa_freqs, rt=getattr(sig, 'response_times', None))
+        for r in reversed(reads):
+            again.append(_eq_all(ctx, getattr(sig, r), first[r]))
+            again.append(_eq_all(ctx, getattr(fresh2, r), first[r]))
         ctx.claim('reads_idempotent_and_non_interfering', S.sym_and(*again), (op, tag))
 
 
